@@ -345,7 +345,7 @@ def plan_simulation(ctx: Ctx):
     nalpha = int(re.search(r"NAlpha = (\d+)", cfg_text).group(1))
     alphas = ALPHAS_WIDE[:nalpha]
     table = json.dumps(bound_table(alphas, dof_lattice(max_len, 8, 10, DELTAS_WIDE)))
-    nruns, num = (1, 30) if ctx.quick else (6, 400)
+    nruns, num = (1, 30) if ctx.quick else (6, 120)
     plan = []
     for r in range(nruns):
         d = ctx.sub(f"sim{r}")
@@ -495,7 +495,7 @@ def validate_traces(ctx: Ctx, traces, floats, nis_den, alphas, tag, workers):
 
 def plan_impl_to_spec(ctx: Ctx, rng):
     """Record runs of the real detectors now (main thread); TLC validates them later."""
-    shards = [(4, 300, 30)] if ctx.quick else [(1, 4000, 50), (4, 4000, 50), (10, 4000, 50)]
+    shards = [(4, 300, 30)] if ctx.quick else [(1, 2500, 50), (4, 2500, 50), (10, 2500, 50)]
     alphas = ALPHAS_WIDE
     plan = []
     for s, (nis_den, count, max_len) in enumerate(shards):
@@ -509,6 +509,41 @@ def plan_impl_to_spec(ctx: Ctx, rng):
 
         plan.append((f"traces_{tag}", go, finish))
     return plan
+
+
+def boundary_probe(ctx: Ctx):
+    """The seam itself: 'reaches' means >=.  Detectors.tla's Verdict is det = (bound <= metric); on the
+    rational lattice equality with the transcendental bound never occurs, so the driver looks for inputs
+    whose REPORTED float metric equals the float bound bit for bit (first call of the standard / sliding
+    detector, dof = dimension) and for inputs one representable value below it."""
+    from scipy.stats import chi2
+    st = {"equal": 0, "below": 0}
+    for kind in ("standard", "sliding"):
+        for alpha in (0.05, 0.01, 0.1, 0.5, 0.2, 0.001, 0.3, 0.9):
+            for d in (1, 2, 3, 6):
+                b = float(chi2.isf(alpha, d))
+                targets = {"equal": b, "below": float(np.nextafter(b, 0.0))}
+                x0 = math.sqrt(b)
+                cands = [x0]
+                for _ in range(6):
+                    cands = [float(np.nextafter(cands[0], 0.0)), *cands, float(np.nextafter(cands[-1], np.inf))]
+                for what, target in targets.items():
+                    for x in cands:
+                        r = np.zeros(d)
+                        r[-1] = x
+                        det = make_detector(kind, 3, 0, 1, alpha)
+                        got = bool(det(r, np.eye(d)))
+                        if float(det.metric) != target:
+                            continue
+                        st[what] += 1
+                        ctx.case(("boundary", kind, alpha, d, what))
+                        if got != (what == "equal"):
+                            ctx.violation(f"{kind}-boundary-{what}", f"{CLS[kind]} reported metric {det.metric!r} with chi2.isf({alpha}, {d}) = {b!r} "
+                                          f"and returned {got}", {"boundary": {"kind": kind, "threshold": alpha, "dim": d, "x": x, "what": what}})
+                        break
+    ctx.extra["boundary_probe"] = st
+    if st["equal"] < 5:
+        raise tlc.MachineryError(f"boundary probe found only {st['equal']} inputs whose metric equals the bound exactly")
 
 
 def plan_deep(ctx: Ctx):
@@ -564,6 +599,7 @@ def run(ctx: Ctx):
     with ThreadPoolExecutor(3 if ctx.quick else 4) as ex:
         plan = plan_exhaustive(ctx) + plan_simulation(ctx)
         futs = [(label, ex.submit(go), finish) for label, go, finish in plan]
+        boundary_probe(ctx)
         more = plan_impl_to_spec(ctx, rng)
         phases["record_real_runs"] = round(time.time() - t0, 1)
         if not ctx.quick:
